@@ -1,40 +1,45 @@
 (* C16 - the send utility conserves value and produces validly signed transactions (bits.tx.send_tx).
 
    Model: Model/SendValue.v (binary64 value layer), Model/Send.v (selection, outputs, messages, assembly: byte-exact against
-   the implementation incl. the signatures, by the correspondence run of every check).  Specs: Spec/Sighash.v (legacy
-   signature hash, template-level [unlocks]), Spec/Bip143.v.
+   the implementation incl. the signatures, by the correspondence run of every check) of the REPAIRED send_tx (fix: commits
+   76b1d46 7028915 b2620c0 68ff814 fc63e23 5a36e22 956c05d).  Specs: Spec/Sighash.v (legacy signature hash, template-level
+   [unlocks]), Spec/Bip143.v.
 
-   WHAT HOLDS (proved for the model, for all inputs):
-     C16_inputs_reported, C16_inputs_distinct, C16_outputs_shape, C16_conservation     given sat_exact / request_covered
-     C16_send_unsigned_bytes                         the returned bytes of an unsigned send
-     C16_segwit_messages_partial                     message_is_sighash, segwit kinds, sub-domain (version 1, locktime 0, every
-                                                     reported unspent is an input and spends output index = its position)
-     C16_legacy_message_partial                      message_is_sighash, legacy kinds, sub-domain (ONE selected input; hash type
-                                                     ALL, ALL|ANYONECANPAY, or SINGLE(|ANYONECANPAY) with a single output)
-     C16_legacy_signatures_valid_partial,            send_valid at the signature level on those sub-domains, from
-     C16_segwit_signatures_valid_partial             curve_facts (C01): every signature is DER||hashtype and ECDSA-valid for the
-                                                     consensus sighash (legacy / BIP143) of its input under its key
-   WHAT DOES NOT HOLD (the known findings; KNOWN_FINDINGS.txt) - for the whole class and with kernel-checked witnesses:
-     C16_segwit_message_actual                       what is signed instead: the pre-image of input number utxo.vout of the
-                                                     transaction with version 1 / locktime 0, for EVERY reported unspent
-     C16_segwit_version_wrong, C16_segwit_locktime_wrong, C16_segwit_vout_index_wrong
-     C16_segwit_version_refuted, C16_segwit_vout_index_refuted, C16_segwit_unselected_refuted
-     C16_legacy_multi_input_refuted, C16_legacy_flag_refuted, C16_legacy_single_with_change_refuted
+   PROVED (for the model, for all inputs):
+     value / structure   C16_inputs_reported, C16_inputs_distinct, C16_outputs_shape, C16_conservation (given sat_exact and
+                         request_covered), C16_send_unsigned_bytes, C16_unsigned_structured
+     message_is_sighash  C16_segwit_messages        every selected input j (any number, any output indices, any version /
+                                                    locktime, six flags): message j = Bip143.preimage t j amount_j scriptCode flag
+                         C16_legacy_sig_message_spec, C16_legacy_messages
+                                                    tx.legacy_sig_message(.., j, scriptcode, ..) ++ flag = Sighash.legacy_preimage t j
+                                                    scriptcode flag, every flag, any number of inputs
+                         C16_legacy_sig_message_single_quirk
+                                                    SIGHASH_SINGLE input without output (consensus digest = the constant 1, not the
+                                                    hash of any message, valid for ANY transaction): refused with ValueError, and
+                                                    C16_legacy_messages shows this is the ONLY refusal
+                         C16_scriptcode_wsh         the p2wsh scriptCode is the CompactSize-prefixed witness script, every length
+     send_valid          C16_segwit_signatures_valid, C16_legacy_signatures_valid, C16_sign_inputs_valid
+                                                    (signature level, from curve_facts = C01): every signature send_tx places for
+                                                    selected input j is DER||hashtype and ECDSA-valid for the CONSENSUS sighash of
+                                                    input j under the public key of its signing key - all eight kinds, any number of
+                                                    inputs, any version / locktime, all six flags
+   The former known findings (segwit: output index used as input index, messages for unselected unspents, version / locktime
+   defaults; legacy: one signature for all inputs, flag not applied; raw sender without change address) are REPAIRED in /repo;
+   their ..._refuted theorems are gone with the code they described (regression inputs: corpus/c16 and the seeded/revert-COMMIT directories).
 
-   FULL-STRENGTH STATEMENTS THAT ARE NOT THEOREMS (kept visible):
-     message_is_sighash :  for every scenario and every selected input j, the byte string handed to bits.sig for input j is the
-                           consensus pre-image of input j (legacy_preimage t j subscript ht ++ nothing / Bip143.preimage t j amount
-                           scriptCode ht) of the transaction t that is returned.           REFUTED by the six theorems above.
-     send_valid         :  forall scenario with keys, forall selected input j,
-                           Spec.Sighash.unlocks sha256 ripemd160 ecdsa strict_der decode_inner t j (sats u_j) (lock_of kind) items_j wit_j
-                           REFUTED outside the sub-domains; on the sub-domains proved at the signature level
-                           (C16_legacy_signatures_valid_partial, C16_segwit_signatures_valid_partial).  MISSING for the full `unlocks` statement on the sub-domains: the
-                           assembly-layer lemmas (script() push encodings of the items, decode of the multisig redeem script, SEC1
-                           round trip of keys.pub, BIP66 strictness of every signature); the correspondence (independent checker harness/c16ref.py: unlocks + OpenSSL ECDSA)
-                           checks exactly these on every scenario of every run.
-     sat_exact          :  forall k, 0 <= k <= 21*10^14 -> sat_of_btc (nearest_double (k / 10^8)) = Ok k.   Not proved (needs an
-                           error analysis of two roundings: |err| <= k * 2^-52 < 1/2); kernel-computed below for the boundary
-                           amounts and 1..4000, and checked by every correspondence run. *)
+   STILL NOT THEOREMS (kept visible):
+     send_valid, full [Spec.Sighash.unlocks] form:
+         forall scenario with keys, forall selected input j,
+           unlocks sha256 ripemd160 ecdsa strict_der decode_inner t j (sats u_j) (lock_of kind) items_j wit_j
+       proved above at the SIGNATURE level; missing for the template form: the assembly-layer lemmas (script() push encodings of
+       the items, decode of the multisig redeem script, SEC1 round trip of keys.pub, BIP66 strictness, HASH160 / SHA256
+       commitments of the sender's own script).  The correspondence (independent checker harness/c16ref.py: unlocks + OpenSSL
+       ECDSA) checks exactly these on every scenario of every run.
+     the p2wpkh scriptCode: hypothesis [scriptcode_of k = Ok (ser_script script)] of C16_sign_inputs_valid (discharged for the
+       p2wsh kinds by C16_scriptcode_wsh; for p2wpkh script = 76 a9 14 HASH160(pubkey) 88 ac, checked by the correspondence).
+     sat_exact :  forall k, 0 <= k <= 21*10^14 -> sat_of_btc (nearest_double (k / 10^8)) = Ok k.   Not proved (needs an error
+       analysis of two roundings: |err| <= k * 2^-52 < 1/2); kernel-computed below for the boundary amounts and 0..4000, and
+       checked by every correspondence run. *)
 From Coq Require Import ZArith List Lia Bool.
 From Coq Require Import Floats.SpecFloat.
 From Coq Require Floats.PrimFloat.
@@ -42,7 +47,7 @@ Require Import Bits.Lib.Result Bits.Lib.Bytes Bits.Lib.CompactSize.
 Require Import Bits.Spec.Bip143 Bits.Spec.Sighash.
 Require Import Bits.Model.Ecmath Bits.Model.Keys Bits.Model.Der Bits.Model.SendValue Bits.Model.Send Bits.Model.SendPrim.
 Require Import Bits.Proofs.Ecmath Bits.Proofs.Ecdsa.
-Require Import Bits.Proofs.SendValue Bits.Proofs.Send Bits.Proofs.SendSign Bits.Proofs.SendRefuted Bits.Proofs.SendValid.
+Require Import Bits.Proofs.SendValue Bits.Proofs.Send Bits.Proofs.SendSign Bits.Proofs.SendValid Bits.Proofs.SendExamples.
 Require Bits.Model.Tx Bits.Proofs.Tx Bits.Proofs.SmallCurves.
 Import ListNotations.
 Import Coq.Init.Byte.
@@ -54,9 +59,9 @@ Module PT := Bits.Proofs.Tx.
 (* ------------------------------------------------------------------------------------------------ value / structure *)
 Theorem C16_inputs_reported :
   forall (p a n : Z) (G : point) (sha256 ripemd160 : bytes -> bytes) (scriptpubkey : bytes -> result bytes)
-         (sats : utxo -> Z) sender recipient change ki frac fee total unspents u,
+         (is_address : bytes -> bool) (sats : utxo -> Z) sender recipient change ki frac fee total unspents u,
     sat_exact sats unspents ->
-    build_unsigned p a n G sha256 ripemd160 scriptpubkey sender recipient change ki frac fee total unspents = Ok u ->
+    build_unsigned p a n G sha256 ripemd160 scriptpubkey is_address sender recipient change ki frac fee total unspents = Ok u ->
     let k := length (us_selected u) in
     map fst (us_selected u) = firstn k unspents /\                               (* a prefix of the reported outputs *)
     (unspents <> [] -> (1 <= k)%nat) /\
@@ -69,20 +74,22 @@ Print Assumptions C16_inputs_reported.
 
 Theorem C16_inputs_distinct :
   forall (p a n : Z) (G : point) (sha256 ripemd160 : bytes -> bytes) (scriptpubkey : bytes -> result bytes)
-         (sats : utxo -> Z) sender recipient change ki frac fee total unspents u,
+         (is_address : bytes -> bool) (sats : utxo -> Z) sender recipient change ki frac fee total unspents u,
     sat_exact sats unspents ->
     NoDup (map (fun x => (u_txid x, u_vout x)) unspents) ->
-    build_unsigned p a n G sha256 ripemd160 scriptpubkey sender recipient change ki frac fee total unspents = Ok u ->
+    build_unsigned p a n G sha256 ripemd160 scriptpubkey is_address sender recipient change ki frac fee total unspents = Ok u ->
     NoDup (map (fun x => (u_txid x, u_vout x)) (map fst (us_selected u))).
 Proof. exact inputs_distinct. Qed.
 Print Assumptions C16_inputs_distinct.
 
+(* change goes to scriptpubkey(change_addr) if given, else to scriptpubkey(sender) for a key / address sender, else to the
+   sender's raw scriptPubKey itself ([change_script]) *)
 Theorem C16_outputs_shape :
   forall (p a n : Z) (G : point) (sha256 ripemd160 : bytes -> bytes) (scriptpubkey : bytes -> result bytes)
-         sender recipient change ki frac fee total unspents u,
-    build_unsigned p a n G sha256 ripemd160 scriptpubkey sender recipient change ki frac fee total unspents = Ok u ->
+         (is_address : bytes -> bool) sender recipient change ki frac fee total unspents u,
+    build_unsigned p a n G sha256 ripemd160 scriptpubkey is_address sender recipient change ki frac fee total unspents = Ok u ->
     exists rs chs,
-      scriptpubkey recipient = Ok rs /\ scriptpubkey (change_target sender change) = Ok chs /\
+      scriptpubkey recipient = Ok rs /\ change_script scriptpubkey is_address sender change = Ok chs /\
       0 <= us_to_send u - fee < 2 ^ 64 /\
       let change_v := us_total u - us_to_send u in
       us_txouts u =
@@ -91,11 +98,19 @@ Theorem C16_outputs_shape :
 Proof. exact outputs_shape. Qed.
 Print Assumptions C16_outputs_shape.
 
+Example C16_change_script_cases :
+  change_script spk_of no_addresses [x51; xae] None = Ok [x51; xae] /\
+  change_script spk_of no_addresses [x51; xae] (Some []) = Ok [x51; xae] /\
+  change_script spk_of all_addresses [x51; xae] None = Ok [x52] /\
+  change_script spk_of no_addresses [x51; xae] (Some [x31]) = Ok [x52].
+Proof. exact change_script_cases. Qed.
+Print Assumptions C16_change_script_cases.
+
 Theorem C16_conservation :
   forall (p a n : Z) (G : point) (sha256 ripemd160 : bytes -> bytes) (scriptpubkey : bytes -> result bytes)
-         (sats : utxo -> Z) sender recipient change ki frac fee total unspents u,
+         (is_address : bytes -> bool) (sats : utxo -> Z) sender recipient change ki frac fee total unspents u,
     sat_exact sats unspents ->
-    build_unsigned p a n G sha256 ripemd160 scriptpubkey sender recipient change ki frac fee total unspents = Ok u ->
+    build_unsigned p a n G sha256 ripemd160 scriptpubkey is_address sender recipient change ki frac fee total unspents = Ok u ->
     us_to_send u <= sumZ (map sats unspents) ->                                   (* request_covered *)
     let inputs := sumZ (map sats (map fst (us_selected u))) in
     let change_v := inputs - us_to_send u in
@@ -112,232 +127,206 @@ Print Assumptions C16_conservation_needs_cover.
 
 Theorem C16_send_unsigned_bytes :
   forall (p a n : Z) (G : point) (sha256 ripemd160 : bytes -> bytes) (scriptpubkey : bytes -> result bytes)
-         sender recipient change flag frac fee version locktime total unspents draws raw,
-    send_tx p a n G sha256 ripemd160 scriptpubkey sender recipient change [] flag frac fee version locktime total unspents draws
-      = Ok raw ->
-    exists u, build_unsigned p a n G sha256 ripemd160 scriptpubkey sender recipient change None frac fee total unspents = Ok u /\
+         (is_address : bytes -> bool) sender recipient change flag frac fee version locktime total unspents draws raw,
+    send_tx p a n G sha256 ripemd160 scriptpubkey is_address sender recipient change [] flag frac fee version locktime total
+            unspents draws = Ok raw ->
+    exists u, build_unsigned p a n G sha256 ripemd160 scriptpubkey is_address sender recipient change None frac fee total unspents
+              = Ok u /\
               raw = PT.tx_bytes false version (map snd (us_selected u)) (us_txouts u) [] locktime.
 Proof. exact send_unsigned_bytes. Qed.
 Print Assumptions C16_send_unsigned_bytes.
 
-(* ------------------------------------------------------------------------------------------------ message layer *)
-Theorem C16_segwit_messages_partial :
-  forall (sha256 : bytes -> bytes) (sats : utxo -> Z) (t : tx) (script : bytes) (f : Z) (unspents : list utxo) (msgs : list bytes),
-    wf_tx t -> tx_version t = 1 -> tx_locktime t = 0 -> standard_flag f ->
-    Z.of_nat (length script) < 2 ^ 64 ->
-    length unspents = length (tx_ins t) ->
-    (forall j x, nth_error unspents j = Some x ->
-                 u_vout x = Z.of_nat j /\ sat_of_btc (u_amount x) = Ok (sats x) /\ 0 <= sats x < 2 ^ 64) ->
-    segwit_msgs sha256 (map ser_txin (tx_ins t)) (map ser_txout (tx_outs t)) (ser_script script) (Some f) unspents = Ok msgs ->
-    forall j x, nth_error unspents j = Some x ->
-      exists m, nth_error msgs j = Some m /\ preimage sha256 t j (sats x) script f = Some m.
-Proof. exact segwit_messages_partial. Qed.
-Print Assumptions C16_segwit_messages_partial.
-
-(* what IS signed, in general *)
-Theorem C16_segwit_message_actual :
-  forall (sha256 : bytes -> bytes) (sats : utxo -> Z) (t : tx) (script : bytes) (f : Z) (unspents : list utxo) (msgs : list bytes),
-    wf_tx t -> tx_version t = 1 -> tx_locktime t = 0 -> standard_flag f ->
-    Z.of_nat (length script) < 2 ^ 64 ->
-    (forall x, In x unspents ->
-               0 <= u_vout x < Z.of_nat (length (tx_ins t)) /\ sat_of_btc (u_amount x) = Ok (sats x) /\ 0 <= sats x < 2 ^ 64) ->
-    segwit_msgs sha256 (map ser_txin (tx_ins t)) (map ser_txout (tx_outs t)) (ser_script script) (Some f) unspents = Ok msgs ->
-    forall i x, nth_error unspents i = Some x ->
-      exists m, nth_error msgs i = Some m /\ preimage sha256 t (Z.to_nat (u_vout x)) (sats x) script f = Some m.
-Proof. exact segwit_message_actual. Qed.
-Print Assumptions C16_segwit_message_actual.
-
-(* the one-byte p2wsh scriptCode length is the CompactSize prefix below 253 bytes (every m-of-n <= 3 multisig: <= 201 bytes) *)
-Theorem C16_one_byte_scriptcode :
-  forall redeem : bytes, Z.of_nat (length redeem) < 253 ->
-    to_be_chk 1 (Z.of_nat (length redeem)) = Ok (cs_enc (Z.of_nat (length redeem))).
-Proof. exact one_byte_scriptcode. Qed.
-Print Assumptions C16_one_byte_scriptcode.
-
-Theorem C16_legacy_preimage_one_input :
-  forall (v lt : Z) (i0 : tx_input) (outs : list tx_output) (ht : Z),
-    ht = 1 \/ ht = 0x81 \/ ((ht = 3 \/ ht = 0x83) /\ length outs = 1%nat) ->
-    let t := mk_tx v [i0] outs lt in
-    legacy_preimage t 0 (ti_script i0) ht = Some (ser_legacy t ++ u32le ht).
-Proof. exact legacy_preimage_one_input. Qed.
-Print Assumptions C16_legacy_preimage_one_input.
-
-Theorem C16_legacy_message_partial :
+(* the transaction send_tx builds, as a structured (Spec) transaction: the bridge to the signature-hash specifications *)
+Theorem C16_unsigned_structured :
   forall (p a n : Z) (G : point) (sha256 ripemd160 : bytes -> bytes) (scriptpubkey : bytes -> result bytes)
-         sender recipient change k frac fee version locktime total unspents u x txi tx_ ht,
-    build_unsigned p a n G sha256 ripemd160 scriptpubkey sender recipient change (Some k) frac fee total unspents = Ok u ->
-    us_selected u = [(x, txi)] ->
-    is_kind (ki_type k) [k_p2pk; k_p2pkh; k_multisig; k_p2sh] = true ->
-    MT.tx_raw (map snd (us_selected u)) (us_txouts u) version locktime [] = Ok tx_ ->
-    ht = 1 \/ ht = 0x81 \/ ((ht = 3 \/ ht = 0x83) /\ length (us_txouts u) = 1%nat) ->
-    exists sc t,
-      sc = (if is_kind (ki_type k) [k_p2pk; k_p2pkh; k_multisig] then u_spk x else ki_redeem k) /\
-      tx_ins t = [Bits.Spec.Bip143.mk_txin (rev (u_txid x)) (u_vout x) sc 0xffffffff] /\
-      tx_version t = version /\ tx_locktime t = locktime /\
-      ser_legacy t = tx_ /\
-      legacy_preimage t 0 sc ht = Some (tx_ ++ to_le 4 ht).
-Proof. exact legacy_message_partial. Qed.
-Print Assumptions C16_legacy_message_partial.
+         (is_address : bytes -> bool) sender recipient change ki frac fee total unspents u version locktime,
+    build_unsigned p a n G sha256 ripemd160 scriptpubkey is_address sender recipient change ki frac fee total unspents = Ok u ->
+    (forall x, In x unspents -> length (u_txid x) = 32%nat) ->
+    0 <= version < 2 ^ 32 -> 0 <= locktime < 2 ^ 32 ->
+    exists t,
+      wf_tx t /\ tx_version t = version /\ tx_locktime t = locktime /\
+      map snd (us_selected u) = map ser_txin (tx_ins t) /\
+      us_txouts u = map ser_txout (tx_outs t) /\
+      Forall2 (selected_input p a n G sha256 ripemd160 ki) (us_selected u) (tx_ins t) /\
+      length (tx_outs t) = length (us_txouts u).
+Proof. exact unsigned_structured. Qed.
+Print Assumptions C16_unsigned_structured.
 
-(* ------------------------------------------------------------------------------------------------ send_valid, partial *)
-Theorem C16_legacy_signatures_valid_partial :
-  forall (p a b n : Z) (G : point) (sha256 ripemd160 : bytes -> bytes) (scriptpubkey : bytes -> result bytes),
-    curve_facts p a b n G ->
-    forall sender recipient change k frac fee version locktime total unspents u x txi tx_ ht draws sigs rest,
-    build_unsigned p a n G sha256 ripemd160 scriptpubkey sender recipient change (Some k) frac fee total unspents = Ok u ->
-    us_selected u = [(x, txi)] ->
-    is_kind (ki_type k) [k_p2pk; k_p2pkh; k_multisig; k_p2sh] = true ->
-    MT.tx_raw (map snd (us_selected u)) (us_txouts u) version locktime [] = Ok tx_ ->
-    ht = 1 \/ ht = 0x81 \/ ((ht = 3 \/ ht = 0x83) /\ length (us_txouts u) = 1%nat) ->
-    sign_keys p a n G sha256 draws (ki_keys k) tx_ (Some ht) false = Ok (sigs, rest) ->
-    exists sc t pre,
-      sc = (if is_kind (ki_type k) [k_p2pk; k_p2pkh; k_multisig] then u_spk x else ki_redeem k) /\
-      ser_legacy t = tx_ /\ tx_version t = version /\ tx_locktime t = locktime /\
-      legacy_preimage t 0 sc ht = Some pre /\
-      legacy_sighash sha256 t 0 sc ht = Some (h256 sha256 pre) /\
-      Forall2 (fun key sg => exists d r s der,
-                 privkey_int n key = Ok d /\ der_encode_sig r s = Ok der /\ sg = der ++ [z2b ht] /\
-                 verify p a b n G r s (smul p a d G) (of_be (h256 sha256 pre)) = Ok true)
-              (ki_keys k) sigs.
-Proof. exact legacy_signatures_valid_partial. Qed.
-Print Assumptions C16_legacy_signatures_valid_partial.
+(* ------------------------------------------------------------------------------------------------ message_is_sighash *)
+Theorem C16_segwit_messages :
+  forall (sha256 : bytes -> bytes) (sats : utxo -> Z) (t : tx) (script : bytes) (f : Z) (selected : list utxo) (k : nat)
+         (msgs : list bytes),
+    wf_tx t -> standard_flag f ->
+    Z.of_nat (length script) < 2 ^ 64 ->
+    (k + length selected <= length (tx_ins t))%nat ->
+    (forall x, In x selected -> sat_of_btc (u_amount x) = Ok (sats x) /\ 0 <= sats x < 2 ^ 64) ->
+    segwit_msgs sha256 (map ser_txin (tx_ins t)) (map ser_txout (tx_outs t)) (ser_script script)
+                (tx_version t) (tx_locktime t) (Some f) (Z.of_nat k) selected = Ok msgs ->
+    forall i x, nth_error selected i = Some x ->
+      exists m, nth_error msgs i = Some m /\ preimage sha256 t (k + i) (sats x) script f = Some m.
+Proof. exact segwit_messages. Qed.
+Print Assumptions C16_segwit_messages.
 
-Theorem C16_segwit_signatures_valid_partial :
+Theorem C16_scriptcode_wsh :
+  forall (p a n : Z) (G : point) (sha256 ripemd160 : bytes -> bytes) (k : keyinfo),
+    is_kind (ki_type k) [k_p2wpkh; k_p2sh_p2wpkh] = false ->
+    Z.of_nat (length (ki_redeem k)) < 2 ^ 64 ->
+    scriptcode_of p a n G sha256 ripemd160 k = Ok (ser_script (ki_redeem k)).
+Proof. exact scriptcode_wsh. Qed.
+Print Assumptions C16_scriptcode_wsh.
+
+Theorem C16_legacy_sig_message_spec :
+  forall t : tx,
+    wf_tx t -> Z.of_nat (length (tx_ins t)) < 2 ^ 64 -> Z.of_nat (length (tx_outs t)) < 2 ^ 64 ->
+    forall (idx : nat) (sc : bytes) (f : Z),
+      (idx < length (tx_ins t))%nat -> Z.of_nat (length sc) < 2 ^ 64 ->
+      (is_single f && (length (tx_outs t) <=? idx)%nat) = false ->
+      exists m,
+        legacy_sig_message (map ser_txin (tx_ins t)) (Z.of_nat idx) sc (map ser_txout (tx_outs t))
+                           (tx_version t) (tx_locktime t) f = Ok m /\
+        legacy_preimage t idx sc f = Some (m ++ u32le f).
+Proof. exact legacy_sig_message_spec. Qed.
+Print Assumptions C16_legacy_sig_message_spec.
+
+Theorem C16_legacy_sig_message_single_quirk :
+  forall (t : tx) (idx : nat) (sc : bytes) (f : Z) (sha256 : bytes -> bytes),
+    (idx < length (tx_ins t))%nat ->
+    (is_single f && (length (tx_outs t) <=? idx)%nat) = true ->
+    legacy_sig_message (map ser_txin (tx_ins t)) (Z.of_nat idx) sc (map ser_txout (tx_outs t))
+                       (tx_version t) (tx_locktime t) f = Err ValueE /\
+    legacy_sighash sha256 t idx sc f = Some uint256_one.
+Proof. exact legacy_sig_message_single_quirk. Qed.
+Print Assumptions C16_legacy_sig_message_single_quirk.
+
+Theorem C16_legacy_messages :
+  forall t : tx,
+    wf_tx t -> Z.of_nat (length (tx_ins t)) < 2 ^ 64 -> Z.of_nat (length (tx_outs t)) < 2 ^ 64 ->
+    forall (f : Z) (rest : list tx_input) (k : nat) (msgs : list bytes),
+      (forall j i, nth_error rest j = Some i -> nth_error (tx_ins t) (k + j) = Some i) ->
+      legacy_msgs (map ser_txin (tx_ins t)) (map ser_txout (tx_outs t)) (tx_version t) (tx_locktime t) f
+                  (Z.of_nat k) (map ser_txin rest) = Ok msgs ->
+      forall j i, nth_error rest j = Some i ->
+        (is_single f && (length (tx_outs t) <=? k + j)%nat) = false /\
+        exists m, nth_error msgs j = Some m /\ legacy_preimage t (k + j) (ti_script i) f = Some (m ++ u32le f).
+Proof. exact legacy_messages. Qed.
+Print Assumptions C16_legacy_messages.
+
+(* ------------------------------------------------------------------------------------------------ send_valid (signature level) *)
+Theorem C16_segwit_signatures_valid :
   forall (p a b n : Z) (G : point) (sha256 : bytes -> bytes),
     curve_facts p a b n G ->
-    forall (sats : utxo -> Z) (t : tx) script f (unspents : list utxo) keys draws msgs sigss,
-    wf_tx t -> tx_version t = 1 -> tx_locktime t = 0 -> standard_flag f ->
+    forall (sats : utxo -> Z) (t : tx) script f (selected : list utxo) keys draws msgs sigss,
+    wf_tx t -> standard_flag f ->
     Z.of_nat (length script) < 2 ^ 64 ->
-    length unspents = length (tx_ins t) ->
-    (forall j x, nth_error unspents j = Some x ->
-                 u_vout x = Z.of_nat j /\ sat_of_btc (u_amount x) = Ok (sats x) /\ 0 <= sats x < 2 ^ 64) ->
-    segwit_msgs sha256 (map ser_txin (tx_ins t)) (map ser_txout (tx_outs t)) (ser_script script) (Some f) unspents = Ok msgs ->
-    sign_msgs p a n G sha256 draws keys msgs (Some f) = Ok sigss ->
-    forall j x, nth_error unspents j = Some x ->
+    (length selected <= length (tx_ins t))%nat ->
+    (forall x, In x selected -> sat_of_btc (u_amount x) = Ok (sats x) /\ 0 <= sats x < 2 ^ 64) ->
+    segwit_msgs sha256 (map ser_txin (tx_ins t)) (map ser_txout (tx_outs t)) (ser_script script)
+                (tx_version t) (tx_locktime t) (Some f) 0 selected = Ok msgs ->
+    sign_msgs p a n G sha256 draws keys msgs (Some f) true = Ok sigss ->
+    forall j x, nth_error selected j = Some x ->
       exists digest sgs,
         sighash sha256 t j (sats x) script f = Some digest /\ nth_error sigss j = Some sgs /\
-        Forall2 (fun key sg => exists d r s der,
-                   privkey_int n key = Ok d /\ der_encode_sig r s = Ok der /\ sg = der ++ [z2b f] /\
-                   verify p a b n G r s (smul p a d G) (of_be digest) = Ok true)
-                keys sgs.
-Proof. exact segwit_signatures_valid_partial. Qed.
-Print Assumptions C16_segwit_signatures_valid_partial.
+        Forall2 (valid_sig p a b n G digest f) keys sgs.
+Proof. exact segwit_signatures_valid. Qed.
+Print Assumptions C16_segwit_signatures_valid.
+
+Theorem C16_legacy_signatures_valid :
+  forall (p a b n : Z) (G : point) (sha256 : bytes -> bytes),
+    curve_facts p a b n G ->
+    forall (t : tx) f keys draws msgs sigss,
+    wf_tx t -> standard_flag f ->
+    Z.of_nat (length (tx_ins t)) < 2 ^ 64 -> Z.of_nat (length (tx_outs t)) < 2 ^ 64 ->
+    legacy_msgs (map ser_txin (tx_ins t)) (map ser_txout (tx_outs t)) (tx_version t) (tx_locktime t) f
+                0 (map ser_txin (tx_ins t)) = Ok msgs ->
+    sign_msgs p a n G sha256 draws keys msgs (Some f) false = Ok sigss ->
+    forall j i, nth_error (tx_ins t) j = Some i ->
+      exists pre sgs,
+        legacy_preimage t j (ti_script i) f = Some pre /\
+        legacy_sighash sha256 t j (ti_script i) f = Some (h256 sha256 pre) /\
+        nth_error sigss j = Some sgs /\
+        Forall2 (valid_sig p a b n G (h256 sha256 pre) f) keys sgs.
+Proof. exact legacy_signatures_valid. Qed.
+Print Assumptions C16_legacy_signatures_valid.
+
+(* send_tx itself: the signatures it computes for the transaction it builds, every kind, every selected input *)
+Theorem C16_sign_inputs_valid :
+  forall (p a b n : Z) (G : point) (sha256 ripemd160 : bytes -> bytes) (scriptpubkey : bytes -> result bytes)
+         (is_address : bytes -> bool),
+    curve_facts p a b n G ->
+    forall (sats : utxo -> Z) sender recipient change k frac fee version locktime total unspents u f script draws sigs,
+    build_unsigned p a n G sha256 ripemd160 scriptpubkey is_address sender recipient change (Some k) frac fee total unspents = Ok u ->
+    (forall x, In x unspents -> length (u_txid x) = 32%nat /\ sat_of_btc (u_amount x) = Ok (sats x) /\ 0 <= sats x < 2 ^ 64) ->
+    0 <= version < 2 ^ 32 -> 0 <= locktime < 2 ^ 32 -> standard_flag f ->
+    Z.of_nat (length (us_selected u)) < 2 ^ 64 ->
+    (segwit_kind k = true ->
+     scriptcode_of p a n G sha256 ripemd160 k = Ok (ser_script script) /\ Z.of_nat (length script) < 2 ^ 64) ->
+    sign_inputs p a n G sha256 ripemd160 k (Some f) version locktime u draws = Ok sigs ->
+    exists t,
+      wf_tx t /\ tx_version t = version /\ tx_locktime t = locktime /\
+      map snd (us_selected u) = map ser_txin (tx_ins t) /\ us_txouts u = map ser_txout (tx_outs t) /\
+      Forall2 (selected_input p a n G sha256 ripemd160 (Some k)) (us_selected u) (tx_ins t) /\
+      forall j xt i, nth_error (us_selected u) j = Some xt -> nth_error (tx_ins t) j = Some i ->
+        exists digest sgs,
+          nth_error sigs j = Some sgs /\
+          (if segwit_kind k then sighash sha256 t j (sats (fst xt)) script f = Some digest
+           else legacy_sighash sha256 t j (ti_script i) f = Some digest) /\
+          Forall2 (valid_sig p a b n G digest f) (ki_keys k) sgs.
+Proof. exact sign_inputs_valid. Qed.
+Print Assumptions C16_sign_inputs_valid.
 
 (* the hypothesis curve_facts is satisfiable (C01: proved by computation for y^2 = x^3 + 7 over F_43, order 31) *)
 Example C16_curve_facts_nonvacuous : curve_facts 43 0 7 31 Bits.Proofs.SmallCurves.G43.
 Proof. exact Bits.Proofs.SmallCurves.facts_43. Qed.
 Print Assumptions C16_curve_facts_nonvacuous.
 
-(* ------------------------------------------------------------------------------------------------ the known findings *)
-(* segwit kinds, for EVERY transaction t returned (structured form), script code, flag and reported unspents *)
-Theorem C16_segwit_version_wrong :
-  forall (sha256 : bytes -> bytes) (sats : utxo -> Z) (t : tx) (script : bytes) (f : Z) (unspents : list utxo) (msgs : list bytes),
-    wf_tx t -> standard_flag f -> Z.of_nat (length script) < 2 ^ 64 ->
-    (forall x, In x unspents ->
-               0 <= u_vout x < Z.of_nat (length (tx_ins t)) /\ sat_of_btc (u_amount x) = Ok (sats x) /\ 0 <= sats x < 2 ^ 64) ->
-    segwit_msgs sha256 (map ser_txin (tx_ins t)) (map ser_txout (tx_outs t)) (ser_script script) (Some f) unspents = Ok msgs ->
-    forall i x m,
-      u32le (tx_version t) <> u32le 1 ->
-      nth_error unspents i = Some x -> nth_error msgs i = Some m ->
-      forall j amount pre, preimage sha256 t j amount script f = Some pre -> m <> pre.
-Proof. exact segwit_version_wrong. Qed.
-Print Assumptions C16_segwit_version_wrong.
-
-Theorem C16_segwit_locktime_wrong :
-  forall (sha256 : bytes -> bytes) (sats : utxo -> Z) (t : tx) (script : bytes) (f : Z) (unspents : list utxo) (msgs : list bytes),
-    wf_tx t -> standard_flag f -> Z.of_nat (length script) < 2 ^ 64 ->
-    (forall x, In x unspents ->
-               0 <= u_vout x < Z.of_nat (length (tx_ins t)) /\ sat_of_btc (u_amount x) = Ok (sats x) /\ 0 <= sats x < 2 ^ 64) ->
-    segwit_msgs sha256 (map ser_txin (tx_ins t)) (map ser_txout (tx_outs t)) (ser_script script) (Some f) unspents = Ok msgs ->
-    forall i x m,
-      tx_version t = 1 -> u32le (tx_locktime t) <> u32le 0 ->
-      nth_error unspents i = Some x -> nth_error msgs i = Some m ->
-      forall pre, preimage sha256 t (Z.to_nat (u_vout x)) (sats x) script f = Some pre -> m <> pre.
-Proof. exact segwit_locktime_wrong. Qed.
-Print Assumptions C16_segwit_locktime_wrong.
-
-Theorem C16_segwit_vout_index_wrong :
-  forall (sha256 : bytes -> bytes) (sats : utxo -> Z) (t : tx) (script : bytes) (f : Z) (unspents : list utxo) (msgs : list bytes),
-    wf_tx t -> standard_flag f -> Z.of_nat (length script) < 2 ^ 64 ->
-    (forall x, In x unspents ->
-               0 <= u_vout x < Z.of_nat (length (tx_ins t)) /\ sat_of_btc (u_amount x) = Ok (sats x) /\ 0 <= sats x < 2 ^ 64) ->
-    segwit_msgs sha256 (map ser_txin (tx_ins t)) (map ser_txout (tx_outs t)) (ser_script script) (Some f) unspents = Ok msgs ->
-    forall i x m a b,
-      nth_error unspents i = Some x -> nth_error msgs i = Some m ->
-      nth_error (tx_ins t) i = Some a -> nth_error (tx_ins t) (Z.to_nat (u_vout x)) = Some b ->
-      ser_outpoint a <> ser_outpoint b ->
-      forall amount pre, preimage sha256 (with_defaults t) i amount script f = Some pre -> m <> pre.
-Proof. exact segwit_vout_index_wrong. Qed.
-Print Assumptions C16_segwit_vout_index_wrong.
-
-(* witnesses, by kernel computation on the faithful model; for every curve and every hash function *)
-Theorem C16_legacy_multi_input_refuted :
+(* ------------------------------------------------------------------------------------------------ concrete runs (kernel computation) *)
+(* legacy, two inputs spending output indices 4 and 0, two outputs, version 2, locktime 7, flags SINGLE, NONE|ANYONECANPAY, ALL *)
+Example C16_legacy_two_inputs :
   forall (p a n : Z) (G : point) (sha256 ripemd160 : bytes -> bytes),
-    exists u tx_ pre,
-      build_unsigned p a n G sha256 ripemd160 spk_of [] [] None (Some ki_p2pk) (sf_of_me 1 0) 1000 (sf_of_me 2 0)
+    exists u m0 m1 n0 n1 a0 a1,
+      build_unsigned p a n G sha256 ripemd160 spk_of all_addresses [] [] None (Some ki_p2pk) (sf_of_me 3 (-2)) 1000 (sf_of_me 2 0)
+                     [ux x11 4; ux x22 0] = Ok u /\
+      length (us_selected u) = 2%nat /\ length (us_txouts u) = 2%nat /\
+      let t := mk_tx 2 [sin x11 4 spk0; sin x22 0 spk0] [sout 149999000; sout 50000000] 7 in
+      txins_of u = map ser_txin (tx_ins t) /\ us_txouts u = map ser_txout (tx_outs t) /\
+      legacy_msgs (txins_of u) (us_txouts u) 2 7 3 0 (txins_of u) = Ok [m0; m1] /\
+      legacy_preimage t 0 spk0 3 = Some (m0 ++ u32le 3) /\ legacy_preimage t 1 spk0 3 = Some (m1 ++ u32le 3) /\
+      m0 <> m1 /\
+      legacy_msgs (txins_of u) (us_txouts u) 2 7 0x82 0 (txins_of u) = Ok [n0; n1] /\
+      legacy_preimage t 0 spk0 0x82 = Some (n0 ++ u32le 0x82) /\ legacy_preimage t 1 spk0 0x82 = Some (n1 ++ u32le 0x82) /\
+      legacy_msgs (txins_of u) (us_txouts u) 2 7 1 0 (txins_of u) = Ok [a0; a1] /\
+      legacy_preimage t 0 spk0 1 = Some (a0 ++ u32le 1) /\ legacy_preimage t 1 spk0 1 = Some (a1 ++ u32le 1).
+Proof. exact legacy_two_inputs. Qed.
+Print Assumptions C16_legacy_two_inputs.
+
+Example C16_legacy_single_quirk_refused :
+  forall (p a n : Z) (G : point) (sha256 ripemd160 : bytes -> bytes),
+    exists u,
+      build_unsigned p a n G sha256 ripemd160 spk_of all_addresses [] [] None (Some ki_p2pk) (sf_of_me 1 0) 1000 (sf_of_me 2 0)
                      [ux x11 0; ux x22 1] = Ok u /\
-      length (us_selected u) = 2%nat /\
-      Bits.Model.Tx.tx_raw (map snd (us_selected u)) (us_txouts u) 1 0 [] = Ok tx_ /\
+      length (us_selected u) = 2%nat /\ length (us_txouts u) = 1%nat /\
+      legacy_msgs (txins_of u) (us_txouts u) 1 0 3 0 (txins_of u) = Err ValueE /\
       let t := mk_tx 1 [sin x11 0 spk0; sin x22 1 spk0] [sout 199999000] 0 in
-      ser_legacy t = tx_ /\ legacy_preimage t 0 spk0 1 = Some pre /\ pre <> tx_ ++ to_le 4 1.
-Proof. exact legacy_multi_input_refuted. Qed.
-Print Assumptions C16_legacy_multi_input_refuted.
+      legacy_sighash sha256 t 1 spk0 3 = Some uint256_one /\
+      exists m, legacy_msgs (txins_of u) (us_txouts u) 1 0 1 0 (txins_of u) = Ok m.
+Proof. exact legacy_single_quirk_refused. Qed.
+Print Assumptions C16_legacy_single_quirk_refused.
 
-Theorem C16_legacy_flag_refuted :
-  forall (p a n : Z) (G : point) (sha256 ripemd160 : bytes -> bytes),
-    exists u tx_ pre,
-      build_unsigned p a n G sha256 ripemd160 spk_of [] [] None (Some ki_p2pk) (sf_of_me 1 0) 1000 (sf_of_me 1 0) [ux x11 0] = Ok u /\
-      length (us_selected u) = 1%nat /\
-      Bits.Model.Tx.tx_raw (map snd (us_selected u)) (us_txouts u) 1 0 [] = Ok tx_ /\
-      let t := mk_tx 1 [sin x11 0 spk0] [sout 99999000] 0 in
-      ser_legacy t = tx_ /\ legacy_preimage t 0 spk0 2 = Some pre /\ pre <> tx_ ++ to_le 4 2.
-Proof. exact legacy_flag_refuted. Qed.
-Print Assumptions C16_legacy_flag_refuted.
-
-Theorem C16_legacy_single_with_change_refuted :
-  forall (p a n : Z) (G : point) (sha256 ripemd160 : bytes -> bytes),
-    exists u tx_ pre,
-      build_unsigned p a n G sha256 ripemd160 spk_of [] [] None (Some ki_p2pk) (sf_of_me 1 (-1)) 1000 (sf_of_me 1 0) [ux x11 0] = Ok u /\
-      length (us_txouts u) = 2%nat /\
-      Bits.Model.Tx.tx_raw (map snd (us_selected u)) (us_txouts u) 1 0 [] = Ok tx_ /\
-      let t := mk_tx 1 [sin x11 0 spk0] [sout 49999000; sout 50000000] 0 in
-      ser_legacy t = tx_ /\ legacy_preimage t 0 spk0 3 = Some pre /\ pre <> tx_ ++ to_le 4 3.
-Proof. exact legacy_single_with_change_refuted. Qed.
-Print Assumptions C16_legacy_single_with_change_refuted.
-
-Theorem C16_segwit_version_refuted :
-  forall (p a n : Z) (G : point) (sha256 ripemd160 : bytes -> bytes),
-    exists u sc m pre,
-      build_unsigned p a n G sha256 ripemd160 spk_of [] [] None (Some ki_p2wsh) (sf_of_me 1 0) 1000 (sf_of_me 1 0) [ux x11 0] = Ok u /\
-      scriptcode_of p a n G sha256 ripemd160 ki_p2wsh = Ok sc /\
-      segwit_msgs sha256 (txins_of u) (us_txouts u) sc (Some 1) [ux x11 0] = Ok [m] /\
-      let t := mk_tx 2 [sin x11 0 []] [sout 99999000] 0 in
-      preimage sha256 t 0 100000000 spk0 1 = Some pre /\ m <> pre.
-Proof. exact segwit_version_refuted. Qed.
-Print Assumptions C16_segwit_version_refuted.
-
-Theorem C16_segwit_vout_index_refuted :
-  forall (p a n : Z) (G : point) (sha256 ripemd160 : bytes -> bytes),
-    exists u sc,
-      build_unsigned p a n G sha256 ripemd160 spk_of [] [] None (Some ki_p2wsh) (sf_of_me 1 0) 1000 (sf_of_me 1 0) [ux x11 1] = Ok u /\
-      scriptcode_of p a n G sha256 ripemd160 ki_p2wsh = Ok sc /\
-      segwit_msgs sha256 (txins_of u) (us_txouts u) sc (Some 1) [ux x11 1] = Err IndexE /\
-      let t := mk_tx 1 [sin x11 1 []] [sout 99999000] 0 in
-      exists pre, preimage sha256 t 0 100000000 spk0 1 = Some pre.
-Proof. exact segwit_vout_index_refuted. Qed.
-Print Assumptions C16_segwit_vout_index_refuted.
-
-Theorem C16_segwit_unselected_refuted :
-  forall (p a n : Z) (G : point) (sha256 ripemd160 : bytes -> bytes),
-    exists u sc,
-      build_unsigned p a n G sha256 ripemd160 spk_of [] [] None (Some ki_p2wsh) (sf_of_me 1 (-2)) 1000 (sf_of_me 2 0)
-                     [ux x11 0; ux x22 1] = Ok u /\
-      length (us_selected u) = 1%nat /\
-      scriptcode_of p a n G sha256 ripemd160 ki_p2wsh = Ok sc /\
-      segwit_msgs sha256 (txins_of u) (us_txouts u) sc (Some 1) [ux x11 0; ux x22 1] = Err IndexE /\
-      exists m, segwit_msgs sha256 (txins_of u) (us_txouts u) sc (Some 1) [ux x11 0] = Ok [m].
-Proof. exact segwit_unselected_refuted. Qed.
-Print Assumptions C16_segwit_unselected_refuted.
+(* segwit (p2wsh): two selected inputs spending output indices 1 and 0, a third unspent not selected, version 2, locktime 7,
+   SINGLE|ANYONECANPAY; stand-in hash *)
+Example C16_segwit_two_inputs :
+  forall (p a n : Z) (G : point) (ripemd160 : bytes -> bytes),
+  exists u sc m0 m1,
+    build_unsigned p a n G toy_hash ripemd160 spk_of all_addresses [] [] None (Some ki_p2wsh) (sf_of_me 1 (-1)) 1000 (sf_of_me 3 0)
+                   [ux x11 1; ux x22 0; ux x33 5] = Ok u /\
+    map fst (us_selected u) = [ux x11 1; ux x22 0] /\
+    scriptcode_of p a n G toy_hash ripemd160 ki_p2wsh = Ok sc /\ sc = ser_script spk0 /\
+    let t := mk_tx 2 [sin x11 1 []; sin x22 0 []] [sout 149999000; sout 50000000] 7 in
+    txins_of u = map ser_txin (tx_ins t) /\ us_txouts u = map ser_txout (tx_outs t) /\
+    segwit_msgs toy_hash (txins_of u) (us_txouts u) sc 2 7 (Some 0x83) 0 (map fst (us_selected u)) = Ok [m0; m1] /\
+    preimage toy_hash t 0 100000000 spk0 0x83 = Some m0 /\ preimage toy_hash t 1 100000000 spk0 0x83 = Some m1.
+Proof. exact segwit_two_inputs. Qed.
+Print Assumptions C16_segwit_two_inputs.
 
 (* ------------------------------------------------------------------------------------------------ sat_exact: instances *)
 (* the binary64 a JSON parser produces for the 8-decimal string of k satoshis: the correctly rounded quotient k / 10^8 *)
@@ -394,7 +383,7 @@ Print Assumptions C16_send_values_example.
 Example C16_build_example :
   forall (p a n : Z) (G : point) (sha256 ripemd160 : bytes -> bytes),
     exists u,
-      build_unsigned p a n G sha256 ripemd160 spk_of [] [] None None (sf_of_me 1 (-1)) 1000 (sf_of_me 3 0)
+      build_unsigned p a n G sha256 ripemd160 spk_of all_addresses [] [] None None (sf_of_me 1 (-1)) 1000 (sf_of_me 3 0)
                      [ux x11 0; ux x22 5; ux x33 2] = Ok u /\
       us_to_send u = 150000000 /\ us_total u = 200000000 /\ length (us_selected u) = 2%nat /\ length (us_txouts u) = 2%nat /\
       sat_exact (fun _ => 100000000) [ux x11 0; ux x22 5; ux x33 2] /\
